@@ -15,10 +15,11 @@ import (
 )
 
 type caseT struct {
-	Check  bool      `json:"check"`
-	Script []cx.Op   `json:"script"`
-	Beh    []cx.Beh  `json:"beh"`
-	Target cx.Target `json:"target"`
+	Check    bool      `json:"check"`
+	Compiled bool      `json:"compiled"`
+	Script   []cx.Op   `json:"script"`
+	Beh      []cx.Beh  `json:"beh"`
+	Target   cx.Target `json:"target"`
 }
 
 // ---------------------------------------------------------------- generator
@@ -513,7 +514,7 @@ func genScript(r *hx.Rand, st *hx.Stats) (caseT, []cx.Target) {
 			g.addEntry(0, entry{nil, i, []int{sg}, -1})
 		}
 	}
-	c := caseT{Check: !r.Chance(1, 4), Script: g.script}
+	c := caseT{Check: !r.Chance(1, 4), Compiled: r.Chance(1, 3), Script: g.script}
 	for h := 1; h <= g.nextH; h++ {
 		c.Beh = append(c.Beh, cx.Beh{H: h, Acts: genBeh(r, st)})
 	}
@@ -553,7 +554,7 @@ func nontrivialActs(acts []cx.Act) bool {
 }
 
 func emit(id string, c caseT, w *cx.World, st *hx.Stats) string {
-	l := hx.NewLine(id).Bool(c.Check)
+	l := hx.NewLine(id).Bool(c.Check).Bool(c.Compiled)
 	cx.EncScript(l, c.Script)
 	cx.EncTarget(l, c.Target)
 	cx.EncBeh(l, c.Beh)
@@ -590,6 +591,9 @@ func emit(id string, c caseT, w *cx.World, st *hx.Stats) string {
 		if !c.Check {
 			st.Count("cancellation_check_off")
 		}
+		if c.Compiled {
+			st.Count("route_compilation_on")
+		}
 		if !found {
 			st.Count("route_not_found")
 		}
@@ -608,7 +612,7 @@ func countEnters(tr []string) int {
 }
 
 func runScript(idp string, c caseT, ts []cx.Target, w *hx.Rand, st *hx.Stats, out func(string)) {
-	world, err := cx.Build(c.Script, cx.BuildOpts{Check: c.Check})
+	world, err := cx.Build(c.Script, cx.BuildOpts{Check: c.Check, Compiled: c.Compiled})
 	if err != nil {
 		out(fmt.Sprintf("# %s: script not executable: %v%s", idp, err, hx.Comment(c)))
 		if st != nil {
@@ -716,7 +720,7 @@ func main() {
 				out(fmt.Sprintf("# cannot replay %q: %v", id, err))
 				continue
 			}
-			world, err := cx.Build(c.Script, cx.BuildOpts{Check: c.Check})
+			world, err := cx.Build(c.Script, cx.BuildOpts{Check: c.Check, Compiled: c.Compiled})
 			if err != nil {
 				out(fmt.Sprintf("# %s: script not executable: %v", id, err))
 				continue
